@@ -6,6 +6,8 @@
 package routing
 
 import (
+	"sync"
+
 	log "github.com/sirupsen/logrus"
 
 	"github.com/dtn7/dtn7-go/pkg/bpv7"
@@ -16,6 +18,9 @@ import (
 // flooding-based epidemic way.
 type EpidemicRouting struct {
 	c *Core
+
+	// failureMutex serialises ReportFailure, which is called from one goroutine per peer
+	failureMutex sync.Mutex
 }
 
 // NewEpidemicRouting creates a new EpidemicRouting Algorithm interacting
@@ -155,6 +160,11 @@ func (er *EpidemicRouting) SenderForBundle(bp BundleDescriptor) (css []cla.Conve
 }
 
 func (er *EpidemicRouting) ReportFailure(bp BundleDescriptor, sender cla.ConvergenceSender) {
+	// The sent list is read, changed and written back: two concurrent reports must not interleave,
+	// or one of the failed peers stays in the list and is never tried again.
+	er.failureMutex.Lock()
+	defer er.failureMutex.Unlock()
+
 	bi, biErr := er.c.store.QueryId(bp.Id)
 	if biErr != nil {
 		log.WithFields(log.Fields{
